@@ -43,6 +43,18 @@ func cellsC03(thorough bool) []Cfg {
 			}
 		}
 	}
+	// staggered instance start (start-up profile still running when ammo or tokens run out)
+	for _, st := range []Sched{cst(2, 1000), comp(once(1), cst(0, 1000), once(1)), istep(1, 3, 1, 500)} {
+		for _, per := range []bool{false, true} {
+			for _, p := range []Sched{cst(2, 1000), cst(2, 3000), comp(once(1), cst(0, 1500), once(2))} {
+				for _, a := range []int{1, 2, 3, -1} {
+					for _, shot := range []int64{0, 700} {
+						out = append(out, Cfg{Prop: "C03", Startup: st, RPS: p, PerInst: per, Ammo: a, Discard: true, ShotMs: []int64{shot}, Bound: 1})
+					}
+				}
+			}
+		}
+	}
 	var res []Cfg
 	for _, c := range out {
 		if c.Prop != "" {
@@ -74,7 +86,8 @@ func cellsC04(thorough bool) []Cfg {
 	var out []Cfg
 	alpha := []int64{0, 100, 1900, 2100, 5000}
 	maxLen := 3
-	profiles := []Sched{cst(2, 3000), cst(5, 3000), cst(10, 2000), once(5)}
+	profiles := []Sched{cst(2, 3000), cst(5, 3000), cst(10, 2000), once(5),
+		comp(once(2), cst(0, 3000), once(2)), cst(0.25, 8000), comp(cst(2, 1000), cst(0, 2500), cst(2, 1000))}
 	if thorough {
 		alpha = []int64{0, 100, 900, 1900, 2000, 2100, 5000}
 		maxLen = 4
@@ -90,7 +103,7 @@ func cellsC04(thorough bool) []Cfg {
 	// several instances: interleavings and stalls (ADVANCE) with preemption bound 1
 	ml := 2
 	for _, n := range []int{2, 3} {
-		for _, p := range []Sched{cst(2, 3000), cst(5, 2000)} {
+		for _, p := range []Sched{cst(2, 3000), cst(5, 2000), comp(once(2), cst(0, 3000), once(2))} {
 			for _, h := range seqs([]int64{0, 1900, 2100, 5000}, ml) {
 				for _, disc := range []bool{true, false} {
 					if n == 3 && len(h) > 1 && !thorough {
@@ -165,6 +178,22 @@ func cellsC05(thorough bool) []Cfg {
 		c.Ammo = 2
 		c.Fault = f
 		out = append(out, c)
+		if f.Kind != "" {
+			// the healthy pool is still in the middle of a long paced profile when the first one fails
+			c.OtherLong = true
+			out = append(out, c)
+		}
+	}
+	for _, f := range []Fault{{"prov", 1}, {"aggstart", 0}, {"panic", 1}, {"bind", 1}} {
+		c := base()
+		c.Pools = 3
+		c.Startup = once(1)
+		c.RPS = once(2)
+		c.Ammo = 2
+		c.Fault = f
+		c.OtherLong = true
+		c.Bound = 0
+		out = append(out, c)
 	}
 	if thorough {
 		n := len(out)
@@ -182,7 +211,8 @@ func cellsC05(thorough bool) []Cfg {
 
 func cellsC12(thorough bool) []Cfg {
 	var out []Cfg
-	startups := []Sched{once(1), once(2), once(3), cst(2, 1000), istep(1, 3, 1, 1000), comp(once(1), cst(0, 1000), once(2))}
+	startups := []Sched{once(1), once(2), once(3), cst(2, 1000), istep(1, 3, 1, 1000), comp(once(1), cst(0, 1000), once(2)),
+		istep(1, 6, 4, 1000), istep(0, 2, 1, 1000), comp(cst(0, 1000), once(2)), istep(2, 5, 2, 500)}
 	type rpsV struct {
 		s    Sched
 		shot int64
